@@ -1003,8 +1003,9 @@ def _cls_nesterov_mixed(fname, rel, s1, s2, det):
 
 
 def _cls_gjk_degenerate(fname, rel, s1, s2, det):
-    """gjk (gjk_distance_jolt), distance output, exactly aligned features (ties)"""
-    return fname == "gjk" and det["what"] == "d" and degenerate_placement(s1, s2)
+    """gjk (gjk_distance_jolt), distance output, exactly aligned features or small-denominator rational coordinates
+    (lattice scenes): exact ties in the support functions / simplex solver"""
+    return fname == "gjk" and det["what"] == "d" and (degenerate_placement(s1, s2) or lattice_scene(s1, s2))
 
 
 def _size_ratio(s1, s2):
@@ -1028,7 +1029,8 @@ def _cls_gjk_original_zero(fname, rel, s1, s2, det):
 def _cls_nesterov_degenerate(fname, rel, s1, s2, det):
     """gjk_nesterov_accelerated_distance (default arguments), exactly aligned features: the relative convergence
     test (tolerance 1e-6 on the duality gap estimate) stops a few 1e-3*L early in some frames"""
-    return fname == "gjk_nesterov_accelerated_distance" and det["what"] == "d" and degenerate_placement(s1, s2)
+    return fname == "gjk_nesterov_accelerated_distance" and det["what"] == "d" and \
+        (degenerate_placement(s1, s2) or lattice_scene(s1, s2))
 
 
 # list of (id, predicate(fname, relation, s1, s2, detail) -> bool); first match wins
